@@ -130,6 +130,8 @@ pub axiom fn ax_tq_mono(p: real, q: real, dof: real) requires 0real < p <= q < 1
 pub axiom fn ax_nq_odd(p: real) requires 0real < p < 1real ensures normal_quantile(1real - p) == -normal_quantile(p);
 pub axiom fn ax_tq_odd(p: real, dof: real) requires 0real < p < 1real, dof > 0real ensures t_quantile(1real - p, dof) == -t_quantile(p, dof);
 
+pub uninterp spec fn epsilon_spec() -> real;
+pub broadcast axiom fn ax_epsilon_pos() ensures #[trigger] epsilon_spec() > 0real;
 pub trait ToR: Sized { spec fn to_real(self) -> real; }
 impl ToR for usize { open spec fn to_real(self) -> real { self as real } }
 impl ToR for R { open spec fn to_real(self) -> real { self.v() } }
@@ -180,6 +182,28 @@ impl R {
     pub fn is_finite(self) -> (r: bool) ensures r { true }
     #[verifier::external_body]
     pub fn is_nan(self) -> (r: bool) ensures !r { false }
+    // machine epsilon: some strictly positive constant
+    #[verifier::external_body]
+    pub fn epsilon() -> (r: R) ensures r.v() == epsilon_spec() { R { x: f64::EPSILON } }
+    #[verifier::external_body]
+    pub fn abs(self) -> (r: R) ensures r.v() == (if self.v() >= 0real { self.v() } else { -self.v() }) { R { x: self.x.abs() } }
+    // sign: +1 / -1; at zero the float types answer by the sign bit, which the ideal model does not have
+    #[verifier::external_body]
+    pub fn signum(self) -> (r: R) ensures self.v() > 0real ==> r.v() == 1real, self.v() < 0real ==> r.v() == -1real, r.v() == 1real || r.v() == -1real { R { x: self.x.signum() } }
+    #[verifier::external_body]
+    pub fn recip(self) -> (r: R) ensures r.v() == rdiv(1real, self.v()) { R { x: self.x.recip() } }
+    #[verifier::external_body]
+    pub fn powi(self, n: i32) -> (r: R) ensures n == 2 ==> r.v() == rmul(self.v(), self.v()), n == 1 ==> r.v() == self.v(), n == 0 ==> r.v() == 1real { R { x: self.x.powi(n) } }
+    #[verifier::external_body]
+    pub fn min(self, other: R) -> (r: R) ensures r.v() == (if self.v() <= other.v() { self.v() } else { other.v() }) { R { x: self.x.min(other.x) } }
+    #[verifier::external_body]
+    pub fn is_infinite(self) -> (r: bool) ensures !r { false }
+    #[verifier::external_body]
+    pub fn is_sign_negative(self) -> (r: bool) ensures self.v() < 0real ==> r, self.v() > 0real ==> !r { self.x.is_sign_negative() }
+    #[verifier::external_body]
+    pub fn is_sign_positive(self) -> (r: bool) ensures self.v() > 0real ==> r, self.v() < 0real ==> !r { self.x.is_sign_positive() }
+    #[verifier::external_body]
+    pub fn mul_add(self, a: R, b: R) -> (r: R) ensures r.v() == rmul(self.v(), a.v()) + b.v() { R { x: self.x.mul_add(a.x, b.x) } }
     #[verifier::external_body]
     pub fn max(self, other: R) -> (r: R) ensures r.v() == (if self.v() >= other.v() { self.v() } else { other.v() }) { R { x: self.x.max(other.x) } }
 }
